@@ -102,6 +102,9 @@ def _build(case):
     if "share_encoders" in case:
         kw["share_encoders"] = case["share_encoders"]
     agentops.seed_all(case["seed"])
+    if case["algo"] in zoo.MULTI and case["seed"] % 2:
+        # agents of one policy / name group interleaved with another group
+        kw["agent_ids"] = ["agent_0", "other_0", "agent_1"]
     agent = zoo.make_agent(case["algo"], case["obs"], hp_config=zoo.tiny_hp_config(case["algo"]), **kw)
     if case.get("wrapper") == "RSNorm":
         from agilerl.wrappers.agent import RSNorm
